@@ -518,6 +518,8 @@ def tsss(x, y):
     norm_y = np.sqrt(norm_y)
     magnitude_difference = np.abs(norm_x - norm_y)
     d_cos /= norm_x * norm_y
+    # rounding can push the cosine just outside [-1, 1]
+    d_cos = min(1.0, max(-1.0, d_cos))
     theta = np.arccos(d_cos) + np.radians(10)  # Add 10 degrees as an "epsilon" to
     # avoid problems
     sector = ((np.sqrt(d_euc_squared) + magnitude_difference) ** 2) * theta
@@ -544,7 +546,8 @@ def true_angular(x, y):
         return FLOAT32_MAX
     else:
         result = result / np.sqrt(norm_x * norm_y)
-        return 1.0 - (np.arccos(result) / np.pi)
+        # rounding can push the cosine just above 1
+        return 1.0 - (np.arccos(min(1.0, result)) / np.pi)
 
 
 @numba.vectorize(fastmath=True)
